@@ -21,6 +21,12 @@ func NewSurnameLink(surname string) *SurnameLink {
 func (c *SurnameLink) WriteHTMLTo(w io.Writer) (int64, error) {
 	firstLetter := rune(c.surname[0])
 	lowerFirstLetter := unicode.ToLower(firstLetter)
+
+	// Surnames that do not start with a letter are listed on the symbol page
+	// (see getIndexLetter).
+	if lowerFirstLetter < 'a' || lowerFirstLetter > 'z' {
+		lowerFirstLetter = symbolLetter
+	}
 	destination := fmt.Sprintf("%s#%s", PageIndividuals(lowerFirstLetter), c.surname)
 
 	return core.NewLink(core.NewText(c.surname), destination).WriteHTMLTo(w)
